@@ -651,6 +651,9 @@ func main() {
 		if d.Attr != "" {
 			run.Count("oct:tree-on-non-position-attribute")
 		}
+		if len(d.Verts) >= 2 && d.Verts[0] == [3]float64{} && (d.Kind == "point" || (len(d.Idx) >= 2 && d.Verts[d.Idx[0]] == [3]float64{} && d.Verts[d.Idx[1]] == [3]float64{})) {
+			run.Count("oct:element-0-of-zero-extent-at-the-origin")
+		}
 		if d.Kind == "tri" {
 			for t := 0; 3*t+2 < len(d.Idx); t++ {
 				if d.Idx[3*t] == d.Idx[3*t+1] || d.Idx[3*t] == d.Idx[3*t+2] || d.Idx[3*t+1] == d.Idx[3*t+2] {
